@@ -155,7 +155,9 @@ def r20_2(rep, M, rid):
 
 
 # ----------------------------------------------------------------------------- R20.5 conventions
-def r20_5(rep, M, rid):
+def r20_5(rep, M, rid, sites_in=None, sites_not_in=()):
+    """sites_in / sites_not_in: functions whose wrapping conversion *call sites* are this property's business (the normal forms of the conversions
+    themselves are always checked)"""
     fq = GEO + ".to_cartesian"
     fn = M.func(fq)
     env = single_defs(fn)
@@ -188,6 +190,8 @@ def r20_5(rep, M, rid):
     for conv in (GEO + ".to_cartesian", GEO + ".to_scaled"):
         cps = M.params(conv)
         for q in M.functions():
+            if (sites_in is not None and q not in sites_in) or q in sites_not_in:
+                continue
             for c in M.calls_to(q, conv):
                 b = dict(zip(cps, c.args))
                 b.update({k.arg: k.value for k in c.keywords if k.arg})
@@ -647,7 +651,7 @@ def run(rep, ctx):
     with rep.guard("R20.4"):
         r20_4(rep, M, E, "R20.4")
     with rep.guard("R20.5"):
-        r20_5(rep, M, "R20.5")
+        r20_5(rep, M, "R20.5", sites_not_in=(GEO + ".get_matches", GEO + ".get_matches_simple"))      # those two sites are C16's
     with rep.guard("R20.6"):
         r20_6(rep, M, "R20.6")
     with rep.guard("R20.7"):
